@@ -283,6 +283,7 @@ impl<'a> Sess<'a> {
             Ok(_) => {
                 self.imp.push("ok".into());
                 self.truth.add_user(id, key, roles);
+                self.truth.history.push(format!("create user {id} roles {roles:?}"));
                 self.accounts.push(Account { id: id.to_string(), key: key.to_string(), roles: roles.to_vec() });
             }
             Err(e) => {
@@ -297,6 +298,8 @@ impl<'a> Sess<'a> {
         self.imp.push(if res.is_ok() { "ok".into() } else { "nouser".into() });
         if res.is_ok() {
             self.truth.set_rights(id, et, rd, wr);
+            self.truth.hist_set(id, et, rd, wr);
+            self.truth.history.push(format!("operator sets {id}/{et} to read={rd} write={wr}"));
         }
     }
     async fn drop_perm(&mut self, id: &str, et: &str) {
@@ -304,17 +307,25 @@ impl<'a> Sess<'a> {
         self.ops.push(format!("dp {} {}", hexs(id), hexs(et)));
         self.imp.push(if res.is_ok() { "ok".into() } else { "nouser".into() });
         self.truth.set_rights(id, et, false, false);
+        if res.is_ok() {
+            self.truth.hist_drop(id, et);
+            self.truth.history.push(format!("operator removes the explicit set {id}/{et}"));
+        }
     }
     async fn rev_key(&mut self, id: &str) {
         let res = self.am.revoke_key(id).await;
         self.ops.push(format!("rk {}", hexs(id)));
         self.imp.push(if res.is_ok() { "ok".into() } else { "nouser".into() });
         self.truth.revoke_key(id);
+        if res.is_ok() {
+            self.truth.history.push(format!("operator revokes key of {id}"));
+        }
     }
     async fn restart(&mut self) {
         self.am = self.w.reopen_auth(self.idx).await;
         self.gates.clear();
         self.truth.restart();
+        self.truth.history.push("RESTART (new AuthManager, load_from_db / bootstrap_admin_user / load_from_db)".into());
         self.ops.push("restart".into());
         self.imp.push(".".into());
     }
@@ -449,23 +460,33 @@ impl<'a> Sess<'a> {
                 let key = secret_key.clone().or(keyo.map(|s| s.to_string())).unwrap_or_default();
                 let roles = roles.clone().unwrap_or_default();
                 self.truth.add_user(user_id, &key, &roles);
+                self.truth.history.push(format!("CREATE USER {user_id} roles {roles:?}"));
                 self.accounts.push(Account { id: user_id.clone(), key, roles });
             }
-            Command::RevokeKey { user_id } if a.class == "200" => self.truth.revoke_key(user_id),
+            Command::RevokeKey { user_id } if a.class == "200" => {
+                self.truth.revoke_key(user_id);
+                self.truth.history.push(format!("REVOKE KEY {user_id}"));
+            }
             // a GRANT issued by someone entitled to counts for every listed type, even when the
             // handler stopped half-way (the oracle must never demand more than the property)
             Command::GrantPermission { permissions, event_types, user_id } if by_admin && a.class != "401" && a.class != "403" => {
                 for et in event_types {
                     for pm in permissions {
-                        match pm.as_str() { "read" => self.truth.grant(user_id, et, "read"), "write" => self.truth.grant(user_id, et, "write"), _ => {} }
+                        match pm.as_str() {
+                            "read" => { self.truth.grant(user_id, et, "read"); self.truth.hist_grant(user_id, et, "read") }
+                            "write" => { self.truth.grant(user_id, et, "write"); self.truth.hist_grant(user_id, et, "write") }
+                            _ => {}
+                        }
                     }
                 }
+                self.truth.history.push(format!("GRANT {permissions:?} ON {event_types:?} TO {user_id} (status {})", a.class));
             }
             Command::RevokePermission { permissions, event_types, user_id } if a.class == "200" => {
                 for et in event_types {
-                    if permissions.is_empty() || permissions.iter().any(|x| x == "read") { self.truth.ungrant(user_id, et, "read"); }
-                    if permissions.is_empty() || permissions.iter().any(|x| x == "write") { self.truth.ungrant(user_id, et, "write"); }
+                    if permissions.is_empty() || permissions.iter().any(|x| x == "read") { self.truth.ungrant(user_id, et, "read"); self.truth.hist_revoke(user_id, et, "read"); }
+                    if permissions.is_empty() || permissions.iter().any(|x| x == "write") { self.truth.ungrant(user_id, et, "write"); self.truth.hist_revoke(user_id, et, "write"); }
                 }
+                self.truth.history.push(format!("REVOKE {permissions:?} ON {event_types:?} FROM {user_id}"));
             }
             _ => {}
         }
@@ -489,11 +510,22 @@ async fn run_case(w: &World, seed: u64, stream: &str, i: u64, am0: Arc<AuthManag
     let mut force_token: Option<usize> = None;
 
     // ---- accounts through the API (what bootstrap / an operator does)
+    // One case in three contains the episode "role holder — full revoke on one type — restart —
+    // the same user asks for that type again" (see `revoke_reload_episode`).
+    let episode = has_mgr && r.chance(1, 3);
     let mut ids = scen::gen_ids(&mut r);
     ids.insert(0, "root".into());
     for (n, id) in ids.iter().enumerate() {
-        let key = if r.chance(1, 40) { "z".repeat(513) } else { scen::gen_key(&mut r) };
-        let roles: Vec<String> = if n == 0 { vec!["admin".into()] } else { r.pick(scen::ROLE_SETS).iter().map(|s| s.to_string()).collect() };
+        let mut key = if r.chance(1, 40) { "z".repeat(513) } else { scen::gen_key(&mut r) };
+        let mut roles: Vec<String> = if n == 0 { vec!["admin".into()] } else { r.pick(scen::ROLE_SETS).iter().map(|s| s.to_string()).collect() };
+        if episode && n == 1 {
+            // the focus account holds a broad role
+            roles = vec![r.pick(&["editor", "read-only", "viewer", "write-only"]).to_string()];
+            if key.len() > 512 { key = "fk".into(); }
+        }
+        if n == 0 && key.len() > 512 {
+            key = "rk".into(); // the admin account always exists (every other account may be refused)
+        }
         s.mk(id, &key, &roles).await;
     }
     // the account and type that grants / revokes / requests concentrate on
@@ -508,7 +540,13 @@ async fn run_case(w: &World, seed: u64, stream: &str, i: u64, am0: Arc<AuthManag
     }
 
     let nsteps = 6 + r.below(14);
-    for _ in 0..nsteps {
+    let episode_at = r.below(4);
+    for step_no in 0..nsteps {
+        if episode && step_no == episode_at {
+            if let Some(f) = focus_user.clone() {
+                revoke_reload_episode(&mut s, &mut r, &f, &focus_type).await;
+            }
+        }
         let choice = r.below(100);
         if choice < 6 {
             // API-level change between requests
@@ -735,6 +773,46 @@ async fn run_case(w: &World, seed: u64, stream: &str, i: u64, am0: Arc<AuthManag
     s.finish(o.expiry)
 }
 
+/// The shape that decides "revoking a permission takes effect — also across a restart":
+/// a role holder loses both rights on one type (REVOKE READ, WRITE / the operator's all-false set /
+/// GRANT of one right followed by its REVOKE), is refused, the auth layer restarts from its WAL,
+/// and the same user asks to read and to write that type again.
+async fn revoke_reload_episode(s: &mut Sess<'_>, r: &mut Rng, user: &str, et: &str) {
+    let store = format!("STORE {et} FOR c1 PAYLOAD {{\"k\":7,\"s\":\"x\"}}");
+    let query = format!("QUERY {et}");
+    let how = r.below(4);
+    match how {
+        0 => { let l = s.inline("root", &format!("REVOKE READ, WRITE ON {et} FROM {user}")); s.request(0, &l).await; }
+        1 => { s.set_perm(user, et, false, false).await; }
+        2 => {
+            let l = s.inline("root", &format!("GRANT READ ON {et} TO {user}")); s.request(0, &l).await;
+            let l = s.inline("root", &format!("REVOKE READ ON {et} FROM {user}")); s.request(0, &l).await;
+        }
+        _ => {
+            let l = s.inline("root", &format!("REVOKE WRITE ON {et} FROM {user}")); s.request(0, &l).await;
+            let l = s.inline("root", &format!("REVOKE READ ON {et} FROM {user}")); s.request(0, &l).await;
+        }
+    }
+    s.co.tallies.push(format!("episode/revoke-form={}", ["REVOKE READ,WRITE", "operator all-false set", "GRANT READ then REVOKE READ", "REVOKE WRITE then REVOKE READ"][how as usize]));
+    // refused right away …
+    let (l1, l2) = (s.inline(user, &query), s.inline(user, &store));
+    s.request(1, &l1).await;
+    s.request(1, &l2).await;
+    // … and after a restart
+    s.restart().await;
+    let first_read = r.chance(1, 2);
+    let demand_r = s.truth.must_deny_read(user, et);
+    let demand_w = s.truth.must_deny_write(user, et);
+    for read in if first_read { [true, false] } else { [false, true] } {
+        let l = s.inline(user, if read { &query } else { &store });
+        s.request(1, &l).await;
+    }
+    s.co.tallies.push("episode: role holder, full revoke, restart, read request by that user".into());
+    s.co.tallies.push("episode: role holder, full revoke, restart, write request by that user".into());
+    if demand_r { s.co.tallies.push("episode: oracle demands refusal of the read after restart".into()); }
+    if demand_w { s.co.tallies.push("episode: oracle demands refusal of the write after restart".into()); }
+}
+
 /// Scripted scenarios: one minimal witness per finding class, plus controls that the same
 /// account is refused where a handler does check. Compared with the model like any other case.
 async fn run_witness(w: &World, i: u64, am0: Arc<AuthManager>) -> CaseOut {
@@ -826,12 +904,30 @@ async fn run_witness(w: &World, i: u64, am0: Arc<AuthManager>) -> CaseOut {
             req!("root", "REVOKE READ ON ev_b FROM ed");
             req!("ed", "QUERY ev_b"); req!("ed", "STORE ev_b FOR c1 PAYLOAD {\"k\":7,\"s\":\"x\"}");
         }
+        10 => {
+            // control: an explicit denial under a role survives a restart (read and write)
+            let st = "STORE ev_a FOR c1 PAYLOAD {\"k\":7,\"s\":\"x\"}";
+            for (id, role) in [("ed", "editor"), ("vw", "viewer"), ("wo", "write-only")] {
+                s.mk(id, "k", &[role.to_string()]).await;
+            }
+            req!("root", "REVOKE READ, WRITE ON ev_a FROM ed");
+            req!("root", "GRANT READ ON ev_a TO vw");
+            req!("root", "REVOKE READ ON ev_a FROM vw");
+            s.set_perm("wo", "ev_a", false, false).await;
+            for id in ["ed", "vw", "wo"] { req!(id, "QUERY ev_a"); req!(id, st); req!(id, "QUERY ev_b"); }
+            s.restart().await;
+            for id in ["ed", "vw", "wo"] { req!(id, "QUERY ev_a"); req!(id, st); req!(id, "QUERY ev_b"); }
+            req!("root", "SHOW PERMISSIONS FOR ed");
+            req!("root", "GRANT WRITE ON ev_a TO ed");
+            s.restart().await;
+            req!("ed", st); req!("ed", "QUERY ev_a");
+        }
         _ => {}
     }
     s.co.tallies.push(format!("witness={i}"));
     s.finish(300)
 }
-const WITNESSES: u64 = 10;
+const WITNESSES: u64 = 11;
 
 /// The model sees the toy rendering of the line; the command the real gate returned is a
 /// sub-slice of the real line at some byte offset — the same offsets in the toy line.
@@ -856,7 +952,11 @@ fn judge(truth: &Truth, user: &str, p: &Parsed, a: &Answer, name_types: &HashMap
     match p.kind {
         "store" => {
             let et = p.write.clone().unwrap();
-            if !truth.may_write(user, &et) { bad = Some(format!("stored into {et} without write right")); }
+            if !truth.may_write(user, &et) {
+                bad = Some(format!("stored into {et} without write right"));
+            } else if truth.must_deny_write(user, &et) {
+                bad = Some(format!("stored into {et} although the write right on it was revoked and not granted again"));
+            }
         }
         "query" | "compare" | "replay" | "show" | "remember" => {
             // which types did the answer expose?
@@ -868,11 +968,20 @@ fn judge(truth: &Truth, user: &str, p: &Parsed, a: &Answer, name_types: &HashMap
             } else if a.rows > 0 {
                 if p.kind == "show" { name_types.get(gcmd.split_whitespace().last().unwrap_or("")).cloned().unwrap_or_default() } else { p.reads.clone() }
             } else { vec![] };
+            let exposed_all = exposed.clone();
             for t in exposed {
                 if !truth.may_read(user, &t) { missing_types.push(t); }
             }
             if !missing_types.is_empty() {
                 bad = Some(format!("{} exposed events of {:?} without read right", p.kind, missing_types));
+            } else {
+                // revocation: a QUERY is judged by what it asks for (the decision), the commands
+                // that never see the identity by what they exposed
+                let asked: Vec<String> = if p.kind == "query" { p.reads.clone() } else { exposed_all.clone() };
+                let denied: Vec<String> = asked.into_iter().filter(|t| truth.must_deny_read(user, t)).collect();
+                if !denied.is_empty() {
+                    bad = Some(format!("{} answered for {:?} although the read right on it was revoked (explicit all-false set) and not granted again", p.kind, denied));
+                }
             }
         }
         "flush" => {
@@ -898,7 +1007,7 @@ fn judge(truth: &Truth, user: &str, p: &Parsed, a: &Answer, name_types: &HashMap
                 _ => "-",
             };
             co.tallies.push(format!("departure={class}"));
-            co.oracle_fail.push((class.into(), format!("user {user:?} cmd {gcmd:?}: {why}")));
+            co.oracle_fail.push((class.into(), format!("user {user:?} cmd {gcmd:?}: {why} | admin history: {}", truth.history_text())));
         }
     }
 }
@@ -991,7 +1100,7 @@ fn main() {
         w.seed().await;
         // a panic inside dispatch_command (none on the present code; BATCH used to) is caught in a
         // spawned task and classed "panic": keep stderr quiet from here on
-        std::panic::set_hook(Box::new(|_| {}));
+        if std::env::var("C13_LOUD").is_err() { std::panic::set_hook(Box::new(|_| {})); }
         let mut s = Stream::create(&a.out, &stream_name);
         let opts = Arc::new(Opts {
             bypass,
